@@ -335,11 +335,11 @@ namespace nmtools::utils
             // "specialize" on index array, avoid using ndindex
             else if constexpr (meta::is_index_array_v<T> && meta::is_index_array_v<U>) {
                 bool equal = true;
-                // TODO: static assert whenever possible
-                // NOTE: use assert instead of exception, to support compile with -fno-exceptions
-                nmtools_cassert ( (nm_size_t)len(t)==(nm_size_t)len(u)
-                    , "mismatched dimension"
-                );
+                // index arrays of different length are not equal,
+                // must not read past the end of the shorter one
+                if ((nm_size_t)len(t)!=(nm_size_t)len(u)) {
+                    return false;
+                }
                 // prefer fixed size for indexing to allow constant index
                 if constexpr (meta::is_fixed_index_array_v<T>) {
                     constexpr auto N = meta::fixed_index_array_size_v<T>;
@@ -399,12 +399,29 @@ namespace nmtools::utils
                     // TODO: static assert whenever possible
                     // NOTE: use assert instead of exception, to support compile with -fno-exceptions
                     // TODO: use maybe type
-                    nmtools_cassert( ((common_t)t_dim == (common_t)u_dim)
-                        , "dimension mismatch for isequal"
-                    );
+                    // arrays of different dimension are not equal
+                    if ((common_t)t_dim != (common_t)u_dim) {
+                        return false;
+                    }
                 }
                 auto t_shape = ::nmtools::shape(t);
                 auto u_shape = ::nmtools::shape(u);
+                // arrays of different shape are not equal (even when the number of elements is the same)
+                {
+                    using t_shape_t = meta::remove_cvref_t<decltype(t_shape)>;
+                    using u_shape_t = meta::remove_cvref_t<decltype(u_shape)>;
+                    if constexpr (meta::is_fixed_index_array_v<t_shape_t> && meta::is_fixed_index_array_v<u_shape_t>) {
+                        if constexpr (meta::fixed_index_array_size_v<t_shape_t> != meta::fixed_index_array_size_v<u_shape_t>) {
+                            return false;
+                        } else if (!isequal(t_shape,u_shape)) {
+                            return false;
+                        }
+                    } else if constexpr (meta::is_index_array_v<t_shape_t> && meta::is_index_array_v<u_shape_t>) {
+                        if (!isequal(t_shape,u_shape)) {
+                            return false;
+                        }
+                    }
+                }
                 auto t_indices = ndindex(t_shape);
                 auto u_indices = ndindex(u_shape);
                 // TODO: static assert whenever possible
@@ -412,9 +429,9 @@ namespace nmtools::utils
                 auto u_size = u_indices.size();
                 {
                     using common_t [[maybe_unused]] = meta::promote_index_t<decltype(t_size),decltype(u_size)>;
-                    nmtools_cassert( ((common_t)t_size == (common_t)u_size)
-                        , "size mismatch for isequal"
-                    );
+                    if ((common_t)t_size != (common_t)u_size) {
+                        return false;
+                    }
                 }
                 using t_t = meta::get_element_or_common_type_t<T>;
                 using u_t = meta::get_element_or_common_type_t<U>;
